@@ -1,14 +1,35 @@
 """C15 — generator of Fortran programs (routines in a module, local parameters used as kinds, array
 bounds and initial values, imported symbols, calls, nested loops/ifs) and of the post-parse tweaks
-that give inner scopes (loop / if bodies) their own symbols, as transformations do."""
+that give inner scopes (loop / if bodies) their own symbols, as transformations do, and that give
+symbols MIXED-CASE names through the symbol-table API (`rename_symbol(sym, "tmpVal")`,
+`new_symbol("iCell")`): the Fortran frontend lower-cases every name, so mixed-case spellings — kept by
+the symbols while every table is keyed by the lower-cased name — only ever come from the API."""
+
+# spellings: how a lower-case name is turned into a name with another key AND upper-case letters
+STYLES = 4
 
 
-def gen_program(rng):
+def respell(name, style):
+    """a new mixed-case name for the symbol called `name` (its normalised form differs from that of
+    `name`: rename_symbol refuses a name whose key is already in the table, its own included)"""
+    if style % STYLES == 0:
+        return name + "Val"                       # tmp -> tmpVal
+    if style % STYLES == 1:
+        return name[:1].upper() + name[1:] + "_X"   # tmp -> Tmp_X
+    if style % STYLES == 2:
+        return (name + "_u").upper()              # tmp -> TMP_U
+    return "my" + name[:1].upper() + name[1:]     # tmp -> myTmp
+
+
+def gen_program(rng, force_case=None):
     """-> (source text, list of tweaks).  A tweak is ["inner", k, name, with_kind, with_bound]:
     declare an array `name` in the symbol table of the k-th Schedule that is not a Routine, with a
     kind / bound taken from the enclosing routine, and use it there; or ["ltype", r, name]: define a
     derived type `name` in routine r (module if r < 0) whose components use that scope's parameters as
-    kind, array bound and in default initialisers, and declare a scalar and an array of that type."""
+    kind, array bound and in default initialisers, and declare a scalar and an array of that type;
+    ["case", "all" | "some", seed, style]: rename_symbol() every (or a seeded half of the) renamable
+    symbol(s) of every table to a mixed-case spelling; ["apisym", r, style]: new_symbol() a mixed-case
+    integer and a mixed-case real in routine r and use them in a new loop at the end of its body."""
     use_import = rng.random() < 0.75
     wildcard = rng.random() < 0.25
     nrout = rng.randint(1, 3)
@@ -146,4 +167,20 @@ def gen_program(rng):
     # array bound and default initialisers that use parameters of that very scope, plus variables of the type
     for t in range(rng.choice([0, 1, 1, 2])):
         tweaks.append(["ltype", rng.choice([-1, 0, 0, 1, 2]), f"gt{t}"])
+    tweaks += case_tweaks(rng, force_case)
     return src, tweaks
+
+
+def case_tweaks(rng, force=None):
+    """the tweaks that introduce mixed-case names (applied after all the others)"""
+    out = []
+    c = rng.random()
+    if force == "all" or (force is None and c < 0.35):
+        if rng.random() < 0.6 or force == "all":
+            out.append(["apisym", rng.randrange(3), rng.randrange(STYLES)])
+        out.append(["case", "all", 0, rng.randrange(STYLES)])
+    elif force is None and c < 0.7:
+        if rng.random() < 0.5:
+            out.append(["apisym", rng.randrange(3), rng.randrange(STYLES)])
+        out.append(["case", "some", rng.randrange(1 << 30), rng.randrange(STYLES)])
+    return out
